@@ -136,6 +136,12 @@ def representable(e):
 
 def big_struct(rng, names, nterms, top):
     rows = set()
+    if rng.random() < .25:
+        # structured tuples: powers of two and their neighbours (where positional row codes would collide modulo 2**32
+        # or 2**64), two rows that differ in the first entry only
+        e = [int(2 ** int(rng.integers(1, 17)) - int(rng.integers(0, 2))) for _ in names]
+        rows.add(tuple(e))
+        rows.add(tuple([0] + e[1:]))
     while len(rows) < nterms:
         rows.add(tuple(int(rng.integers(0, top)) if rng.random() < .7 else int(rng.integers(0, 3)) for _ in names))
     return {"names": list(names), "shape": [], "dtype": "int64", "kind": "int",
